@@ -1085,7 +1085,7 @@ CMR_ERROR CMRtwosumCompose(CMR* cmr, CMR_CHRMAT* first, CMR_CHRMAT* second, size
     /* rank 1 in bottom-right matrix. */
     markerRowNumNonzeros = first->rowSlice[firstRowMarker+1] - first->rowSlice[firstRowMarker];
 
-    CMR_CALL( CMRallocStackArray(cmr, &markerColumn, second->numColumns) );
+    CMR_CALL( CMRallocStackArray(cmr, &markerColumn, second->numRows) );
     for (size_t row = 0; row < second->numRows; ++row)
     {
       size_t entry;
@@ -1108,7 +1108,7 @@ CMR_ERROR CMRtwosumCompose(CMR* cmr, CMR_CHRMAT* first, CMR_CHRMAT* second, size
   {
     /* rank 1 in top right */
 
-    CMR_CALL( CMRallocStackArray(cmr, &markerColumn, first->numColumns) );
+    CMR_CALL( CMRallocStackArray(cmr, &markerColumn, first->numRows) );
     for (size_t row = 0; row < first->numRows; ++row)
     {
       size_t entry;
@@ -1287,7 +1287,7 @@ CMR_ERROR CMRtwosumDecomposeFirst(CMR* cmr, CMR_CHRMAT* matrix, CMR_SEPA* sepa, 
     CMR_CALL( CMRallocStackArray(cmr, &columnsToFirst, matrix->numColumns) );
 
   char* denseColumn = NULL;
-  CMR_CALL( CMRallocStackArray(cmr, &denseColumn, matrix->numColumns) );
+  CMR_CALL( CMRallocStackArray(cmr, &denseColumn, matrix->numRows) );
 
   /* Number of rows of A. */
   size_t numRows = 0;
@@ -1397,13 +1397,13 @@ CMR_ERROR CMRtwosumDecomposeFirst(CMR* cmr, CMR_CHRMAT* matrix, CMR_SEPA* sepa, 
 
   /* Free local arrays. */
   CMR_CALL( CMRfreeStackArray(cmr, &denseColumn) );
-  if (hasColumnsToFirst)
+  if (!hasColumnsToFirst)
     CMR_CALL( CMRfreeStackArray(cmr, &columnsToFirst) );
-  if (hasRowsToFirst)
+  if (!hasRowsToFirst)
     CMR_CALL( CMRfreeStackArray(cmr, &rowsToFirst) );
-  if (hasFirstColumnsOrigin)
+  if (!hasFirstColumnsOrigin)
     CMR_CALL( CMRfreeStackArray(cmr, &firstColumnsOrigin) );
-  if (hasFirstRowsOrigin)
+  if (!hasFirstRowsOrigin)
     CMR_CALL( CMRfreeStackArray(cmr, &firstRowsOrigin) );
 
   return CMR_OKAY;
@@ -1437,7 +1437,7 @@ CMR_ERROR CMRtwosumDecomposeSecond(CMR* cmr, CMR_CHRMAT* matrix, CMR_SEPA* sepa,
     CMR_CALL( CMRallocStackArray(cmr, &columnsToSecond, matrix->numColumns) );
 
   char* denseColumn = NULL;
-  CMR_CALL( CMRallocStackArray(cmr, &denseColumn, matrix->numColumns) );
+  CMR_CALL( CMRallocStackArray(cmr, &denseColumn, matrix->numRows) );
 
   /* Find extra row. */
   size_t extraRow = SIZE_MAX;
@@ -1573,13 +1573,13 @@ CMR_ERROR CMRtwosumDecomposeSecond(CMR* cmr, CMR_CHRMAT* matrix, CMR_SEPA* sepa,
 
   /* Free local arrays. */
   CMR_CALL( CMRfreeStackArray(cmr, &denseColumn) );
-  if (hasColumnsToSecond)
+  if (!hasColumnsToSecond)
     CMR_CALL( CMRfreeStackArray(cmr, &columnsToSecond) );
-  if (hasRowsToSecond)
+  if (!hasRowsToSecond)
     CMR_CALL( CMRfreeStackArray(cmr, &rowsToSecond) );
-  if (hasSecondColumnsOrigin)
+  if (!hasSecondColumnsOrigin)
     CMR_CALL( CMRfreeStackArray(cmr, &secondColumnsOrigin) );
-  if (hasSecondRowsOrigin)
+  if (!hasSecondRowsOrigin)
     CMR_CALL( CMRfreeStackArray(cmr, &secondRowsOrigin) );
 
   return CMR_OKAY;
